@@ -6,6 +6,10 @@
 //      be seen from outside: the kernel outputs (orthonormalised blocks, raw Ritz data of the inner solvers) that are handed to the
 //      Lean model, and the per-iteration list of removed columns.
 //  (b) oracle: the property's own predicate on the real outputs against a dense generalized reference in long double.
+//  Streams: the general stream (no / Jacobi preconditioner), a preconditioner stream (Jacobi, a poor diagonal SPD one, a poor
+//  tridiagonal SPD one), a loose-tolerance stream (graded spectrum, columns lock at different iterations and unlock again: pins the
+//  per-iteration list of removed columns), a near-convergence stress stream (Jacobi preconditioner, tolerance at the default and
+//  near the attainable accuracy: the Gram matrix of [X R D] degenerates), crafted exits.
 #include "common.h"
 #include <memory>
 #include <Eigen/Core>
@@ -43,13 +47,14 @@ struct IterRec {
     std::vector<int> del; int bs = 0;
     int orthR = -1; Mat R;          // -1 not reached, 0 failed, 1 ok
     int orthD = -1; Mat D;          // -1 not applicable / not reached
-    int rr = 3; Vec theta; Mat C;   // 0 ok, 1 not converged, 2 threw, 3 not reached
+    int rr = 3; Vec theta; Mat C;   // 0 ok, 1 not converged, 2 threw, 3 not reached, 4 Cholesky of the Gram matrix failed
     bool completed = false;
 };
 struct Trace {
     int orthX = 0; Mat X1; int eig0 = 0; Vec theta0; Mat C0;
     std::vector<IterRec> it;
     bool threw = false; std::string what;
+    int guard = -1;                 // the B-orthonormality guard in front of m_info = Success: -1 not evaluated, 0 failed, 1 passed
 };
 
 // statement-by-statement shadow of LOBPCGSolver::compute (flag_with_constraints = false), on the object's own members
@@ -110,6 +115,7 @@ static void shadow_compute(Solver& s, int maxit, double tol_div_n, Trace& tr) {
         }
         DenseSymMatProd<double> Aop(gramA);
         DenseCholesky<double> Bop(gramB);
+        if (Bop.info() != CompInfo::Successful) { r.rr = 4; s.m_info = Eigen::NumericalIssue; break; }
         try {
             int ncv = (std::min)(10, int(gramA.rows()) - 1);
             if (ncv <= m_nev) ncv = (std::min)(int(gramA.rows()), 2 * m_nev);
@@ -139,14 +145,29 @@ static void shadow_compute(Solver& s, int maxit, double tol_div_n, Trace& tr) {
     s.m_residuals.resize(m_n, m_nev);
     for (int i = 0; i < m_nev; i++) s.m_residuals.col(i) = AX.col(i) - s.m_evalues(i) * BX.col(i);
     BlockSize = Acc::check(s, s.m_residuals, tolerance_L2, columnsToDelete);
-    if (BlockSize == 0) s.m_info = Eigen::Success;
+    if (BlockSize == 0) {
+        const Mat XBX = Mat(X.transpose() * BX);
+        const double orth_err = (XBX - Mat::Identity(m_nev, m_nev)).cwiseAbs().maxCoeff();
+        s.m_info = (orth_err < sqrt(Eigen::NumTraits<double>::epsilon())) ? Eigen::Success : Eigen::NumericalIssue;
+        tr.guard = s.m_info == Eigen::Success ? 1 : 0;
+    }
 }
 
 // ---------------------------------------------------------------------------------------------------------------- cases
 struct Case {
     int n = 0, k = 0; bool withB = false, withT = false; double tol = 1e-7; int J = 0; std::string cls;
     Mat A, B, T, X0;
+    std::vector<int> cuts;   // if non-empty: the cuts of the correspondence (instead of 0..J)
 };
+// preconditioner kinds: 0 none, 1 Jacobi diag(A)^-1, 2 a poor diagonal SPD one (unrelated to A, entries in [0.05, 5.05]),
+// 3 a poor tridiagonal SPD one (diagonally dominant, unrelated to A)
+static void set_precond(Case& c, int kind, Rng& g) {
+    const int n = c.n; c.T = Mat::Identity(n, n); c.withT = kind != 0;
+    if (kind == 1) for (int i = 0; i < n; i++) c.T(i, i) = 1.0 / c.A(i, i);
+    if (kind == 2) for (int i = 0; i < n; i++) c.T(i, i) = 0.05 + 5.0 * std::fabs(g.sym());
+    if (kind == 3) for (int i = 0; i < n; i++) { c.T(i, i) = 1.0 + 0.25 * g.sym(); if (i + 1 < n) c.T(i, i + 1) = c.T(i + 1, i) = 0.3; }
+    if (kind == 1) c.cls += "+T"; if (kind == 2) c.cls += "+Tpoor"; if (kind == 3) c.cls += "+Ttri";
+}
 static uint64_t cb(double x) { return x == 0.0 ? 0ull : dbits(x); }   // signed zeros canonicalised
 static void put_sparse(std::ostringstream& o, const Mat& M) {
     int nnz = 0; for (int i = 0; i < M.rows(); i++) for (int j = 0; j < M.cols(); j++) if (M(i, j) != 0.0) nnz++;
@@ -156,7 +177,7 @@ static void put_sparse(std::ostringstream& o, const Mat& M) {
 static void put_dense(std::ostringstream& o, const Mat& M) { for (int j = 0; j < M.cols(); j++) for (int i = 0; i < M.rows(); i++) o << " " << cb(M(i, j)); }
 static void put_shape(std::ostringstream& o, const char* tag, const Mat& M) { o << " " << tag << "=" << M.rows() << "x" << M.cols(); put_dense(o, M); }
 
-static Case gen_case(Rng& g, bool thorough, int idx) {
+static Case gen_case(Rng& g, bool thorough, int idx, int tkind = 0) {
     Case c;
     static const int ks[] = {2, 3, 2, 4, 3, 5, 2, 3, 1, 6};
     c.k = ks[idx % 10];
@@ -166,7 +187,7 @@ static Case gen_case(Rng& g, bool thorough, int idx) {
     c.withB = (idx & 1); c.withT = (idx & 2);
     int n = c.n, k = c.k;
     int pat = g.range(0, 3);
-    c.cls = std::string(pat == 0 ? "tridiag" : pat == 1 ? "band3" : pat == 2 ? "laplace" : "arrow") + (c.withB ? "+B" : "") + (c.withT ? "+T" : "");
+    c.cls = std::string(pat == 0 ? "tridiag" : pat == 1 ? "band3" : pat == 2 ? "laplace" : "arrow") + (c.withB ? "+B" : "");
     c.A = Mat::Zero(n, n);
     for (int i = 0; i < n; i++) {
         c.A(i, i) = (pat == 2) ? 2.0 + 0.5 * i : 1.0 + i + 0.25 * g.sym();
@@ -176,12 +197,31 @@ static Case gen_case(Rng& g, bool thorough, int idx) {
     }
     c.B = Mat::Identity(n, n);
     if (c.withB) for (int i = 0; i < n; i++) { c.B(i, i) = 1.5 + 0.5 * g.sym(); if (i + 1 < n) c.B(i, i + 1) = c.B(i + 1, i) = 0.2 * g.sym(); }
-    c.T = Mat::Identity(n, n);
-    if (c.withT) for (int i = 0; i < n; i++) c.T(i, i) = 1.0 / c.A(i, i);
+    set_precond(c, tkind > 0 ? tkind : (c.withT ? 1 : 0), g);   // Jacobi draws nothing from g: the general stream is unchanged
     c.X0 = Mat(n, k); for (int j = 0; j < k; j++) for (int i = 0; i < n; i++) c.X0(i, j) = g.sym();
     static const double tols[] = {1e-7, 1e-5, 1e-9, 1e-3};
     c.tol = tols[g.range(0, 3)];
     c.J = thorough ? 14 : 7;
+    return c;
+}
+
+// graded family (the generator of the observer's report): n = 60 (+ a few), A = diag(1, 3, 5, ...) + couplings 0.3 u at distance 1
+// and 0.2 u at distance 7 (well separated smallest eigenvalues ~ 1, 3, 5, ..., columns converge at different speeds), B SPD
+// tridiagonal (diag 2 + 0.5 u, off 0.4) or none, preconditioner kind tk, dense random X0
+static Case gen_graded(Rng& g, int k, bool withB, int tk, double tolL2, int J) {
+    Case c; c.k = k; c.n = 60 + g.range(0, 4); c.withB = withB; const int n = c.n;
+    c.cls = std::string("graded") + (withB ? "+B" : "");
+    c.A = Mat::Zero(n, n);
+    for (int i = 0; i < n; i++) {
+        c.A(i, i) = 2.0 * i + 1.0;
+        if (i + 1 < n) c.A(i, i + 1) = c.A(i + 1, i) = 0.3 * g.sym();
+        if (i + 7 < n) c.A(i, i + 7) = c.A(i + 7, i) = 0.2 * g.sym();
+    }
+    c.B = Mat::Identity(n, n);
+    if (withB) for (int i = 0; i < n; i++) { c.B(i, i) = 2.0 + 0.5 * g.sym(); if (i + 1 < n) c.B(i, i + 1) = c.B(i + 1, i) = 0.4; }
+    set_precond(c, tk, g);
+    c.X0 = Mat(n, k); for (int i = 0; i < n; i++) for (int j = 0; j < k; j++) c.X0(i, j) = g.sym();
+    c.tol = tolL2 / n; c.J = J;
     return c;
 }
 
@@ -215,6 +255,7 @@ static std::string case_json(const Case& c, int maxit, const std::string& extra 
     bool f = true; for (int i = 0; i < c.n; i++) for (int j = 0; j < c.n; j++) if (c.A(i, j) != 0.0) { o << (f ? "" : ",") << i << "," << j << "," << dbits(c.A(i, j)); f = false; }
     o << "],\"B\":["; f = true; if (c.withB) for (int i = 0; i < c.n; i++) for (int j = 0; j < c.n; j++) if (c.B(i, j) != 0.0) { o << (f ? "" : ",") << i << "," << j << "," << dbits(c.B(i, j)); f = false; }
     o << "],\"T\":["; f = true; if (c.withT) for (int i = 0; i < c.n; i++) { o << (f ? "" : ",") << dbits(c.T(i, i)); f = false; }
+    o << "],\"Toff\":["; f = true; if (c.withT) for (int i = 0; i < c.n; i++) for (int j = 0; j < c.n; j++) if (i != j && c.T(i, j) != 0.0) { o << (f ? "" : ",") << i << "," << j << "," << dbits(c.T(i, j)); f = false; }
     o << "],\"X0\":["; f = true; for (int j = 0; j < c.k; j++) for (int i = 0; i < c.n; i++) { o << (f ? "" : ",") << dbits(c.X0(i, j)); f = false; }
     o << "]}";
     return o.str();
@@ -242,6 +283,7 @@ static bool case_from_json(const std::string& t, Case& c, int& maxit) {
     auto a = jarr(t, "A"); for (size_t i = 0; i + 2 < a.size(); i += 3) c.A(a[i], a[i + 1]) = bitsd(a[i + 2]);
     auto b = jarr(t, "B"); if (c.withB) { c.B.setZero(); for (size_t i = 0; i + 2 < b.size(); i += 3) c.B(b[i], b[i + 1]) = bitsd(b[i + 2]); }
     auto tt = jarr(t, "T"); if (c.withT) for (size_t i = 0; i < tt.size() && (int) i < n; i++) c.T(i, i) = bitsd(tt[i]);
+    auto to = jarr(t, "Toff"); if (c.withT) for (size_t i = 0; i + 2 < to.size(); i += 3) c.T(to[i], to[i + 1]) = bitsd(to[i + 2]);
     auto x0 = jarr(t, "X0"); for (size_t i = 0; i < x0.size() && (int) i < n * c.k; i++) c.X0(i % n, i / n) = bitsd(x0[i]);
     return true;
 }
@@ -277,10 +319,26 @@ static void oracle(const Case& c, int maxit, Out& out) {
         LMat X = o.X.cast<long double>(); LVec th = o.evals.cast<long double>();
         // (a) ascending
         for (int i = 0; i + 1 < k; i++) if (!(th(i) <= th(i + 1))) { out.fail("not-ascending", "eigenvalues() not ascending at " + str(i), case_json(c, maxit, ",\"pred\":\"ascending\"")); break; }
-        // (b) the k smallest: |theta_i - lambda_i| <= 4 tolL2/sqrt(lambda_min(B)) + 1e-9 (1+|lambda_i|)
-        for (int i = 0; i < k && i < th.size(); i++) {
-            long double bound = 4 * tolL2 / sqrtl(bmin) + 1e-9L * (1 + fabsl(lam(i)));
-            if (!(fabsl(th(i) - lam(i)) <= bound)) { out.fail("not-smallest", "eigenvalue " + str(i) + " = " + str((double) th(i)) + " but reference " + str((double) lam(i)) + " (bound " + str((double) bound) + ")", case_json(c, maxit, ",\"pred\":\"smallest\"")); break; }
+        // (b) the k smallest: |theta_i - lambda_i| <= 4 tolL2/sqrt(lambda_min(B)) + 1e-9 (1+|lambda_i|), applied when that bound
+        //     resolves the spectrum (bound < a quarter of the smallest gap among lambda_0..lambda_k).  With a looser tolerance a
+        //     residual below tol*n does not determine WHICH eigenvalue a Ritz value approximates; then only what a small residual of
+        //     a B-orthonormal block implies is required: every theta_i is within the bound of SOME eigenvalue of the pencil, and
+        //     theta_i >= lambda_i - bound (Cauchy interlacing).
+        {
+            long double gap = 1e300L; for (int i = 0; i < k && i + 1 < lam.size(); i++) gap = std::min(gap, lam(i + 1) - lam(i));
+            long double b0 = 4 * tolL2 / sqrtl(bmin);
+            bool resolves = b0 < 0.25L * gap;
+            out.count(resolves ? "oracle_smallest_strong" : "oracle_smallest_weak");
+            for (int i = 0; i < k && i < th.size(); i++) {
+                long double bound = b0 + 1e-9L * (1 + fabsl(lam(i)));
+                if (resolves) {
+                    if (!(fabsl(th(i) - lam(i)) <= bound)) { out.fail("not-smallest", "eigenvalue " + str(i) + " = " + str((double) th(i)) + " but reference " + str((double) lam(i)) + " (bound " + str((double) bound) + ")", case_json(c, maxit, ",\"pred\":\"smallest\"")); break; }
+                } else {
+                    long double dist = 1e300L; for (int q = 0; q < lam.size(); q++) dist = std::min(dist, fabsl(th(i) - lam(q)));
+                    long double bq = b0 + 1e-9L * (1 + fabsl(th(i)));
+                    if (!(dist <= bq) || !(th(i) >= lam(i) - bq)) { out.fail("not-an-eigenvalue", "eigenvalue " + str(i) + " = " + str((double) th(i)) + ": distance " + str((double) dist) + " to the spectrum of the pencil, lambda_i = " + str((double) lam(i)) + " (bound " + str((double) bq) + ")", case_json(c, maxit, ",\"pred\":\"spectrum\"")); break; }
+                }
+            }
         }
         // (c) internal X is B-orthonormal: max |X'BX - I| <= 1e-8
         if (X.rows() == n && X.cols() == k) {
@@ -332,7 +390,9 @@ static void oracle_second(const Case& c, int maxit, Out& out) {
 
 // ---------------------------------------------------------------------------------------------------------------- correspondence
 static void corr_case(const Case& c, Out& out) {
-    for (int j = 0; j <= c.J; j++) {
+    std::vector<int> cuts = c.cuts; if (cuts.empty()) for (int j = 0; j <= c.J; j++) cuts.push_back(j);
+    const double gthr = sqrt(Eigen::NumTraits<double>::epsilon());   // the threshold of the B-orthonormality guard, as the code computes it
+    for (int j : cuts) {
         Obs real = run_real(c, j, c.tol);
         std::unique_ptr<Solver> sh(make(c)); Trace tr;
         shadow_compute(*sh, j, c.tol, tr);
@@ -340,7 +400,7 @@ static void corr_case(const Case& c, Out& out) {
         bool eq = same_obs(real, so);
         if (!eq) out.count("shadow_differs");
         std::ostringstream q;
-        q << "lobpcg " << c.n << " " << c.k << " " << j << " " << dbits(c.tol) << " A"; put_sparse(q, c.A);
+        q << "lobpcg " << c.n << " " << c.k << " " << j << " " << dbits(c.tol) << " G " << dbits(gthr) << " A"; put_sparse(q, c.A);
         q << " B " << (c.withB ? 1 : 0); if (c.withB) put_sparse(q, c.B);
         q << " T " << (c.withT ? 1 : 0); if (c.withT) put_sparse(q, c.T);
         q << " X0"; put_dense(q, c.X0);
@@ -354,6 +414,8 @@ static void corr_case(const Case& c, Out& out) {
             q << " D " << r.orthD; if (r.orthD == 1) put_dense(q, r.D);
             q << " RR " << r.rr; if (r.rr == 0) { q << " " << r.C.rows(); put_dense(q, r.theta); put_dense(q, r.C); }
         }
+        // a column that had passed the norm test and is back in the active block one iteration later (soft locking)
+        for (size_t i = 0; i + 1 < tr.it.size(); i++) for (int d : tr.it[i].del) if (std::find(tr.it[i + 1].del.begin(), tr.it[i + 1].del.end(), d) == tr.it[i + 1].del.end()) { out.count("iter_with_unlocked_column"); break; }
         std::ostringstream a;
         int done = 0; for (auto& r : tr.it) if (r.completed) done++;
         a << "threw=" << (real.threw ? 1 : 0) << " info=" << real.info << " iters=" << done << " dels=";
@@ -362,8 +424,9 @@ static void corr_case(const Case& c, Out& out) {
         a << " sh=" << (eq ? 1 : 0);
         out.corr(q.str(), a.str());
         out.count("cuts");
+        if (tr.guard == 0) out.count("final_guard_failed"); if (tr.guard == 1) out.count("final_guard_passed");
         if (real.threw) out.count("exit_threw"); else out.count("info_" + str(real.info));
-        for (auto& r : tr.it) { if (r.orthR == 0) out.count("exit_orthR_failed"); if (r.orthD == 0) out.count("exit_orthD_failed"); if (r.rr == 1) out.count("exit_rr_notconverged"); if (!r.del.empty() && r.bs > 0) out.count("iter_with_removed_columns"); }
+        for (auto& r : tr.it) { if (r.orthR == 0) out.count("exit_orthR_failed"); if (r.orthD == 0) out.count("exit_orthD_failed"); if (r.rr == 1) out.count("exit_rr_notconverged"); if (r.rr == 4) out.count("exit_gram_failed"); if (!r.del.empty() && r.bs > 0) out.count("iter_with_removed_columns"); }
     }
     out.count("class_" + c.cls); out.count("k_" + str(c.k));
 }
@@ -395,6 +458,45 @@ int main(int argc, char** argv) {
         oracle(c, c.n, out);              // max_iter = min(n, maxit): the longest run the code allows
         if (idx % 3 == 0) oracle_second(c, c.n, out);
     }
+    // ---- preconditioner stream: Jacobi, a poor diagonal SPD and a poor tridiagonal SPD preconditioner (correspondence + oracle)
+    for (int q = 0; q < (a.thorough() ? 72 : 9); q++) {
+        Rng g(a.seed, 21, q);
+        Case c = gen_case(g, a.thorough(), 10 * q + (q % 8), 1 + q % 3); c.cls += "/precond";
+        { std::ofstream lc(a.out + "/lastcase.txt"); lc << case_json(c, c.n); }
+        corr_case(c, out); oracle(c, c.n, out);
+    }
+    // ---- loose tolerance stream: tol*n in {6, 3, 1.8} on the graded family, k = 3..6: columns pass the norm test in the
+    //      first iterations, at different times, and some come back above it (soft locking; tol*n = 6 and 3 twice as often).  The model pins the list of removed
+    //      columns of every iteration; the oracle requires every final residual column below tol*n on Success.
+    for (int q = 0; q < (a.thorough() ? 160 : 16); q++) {
+        Rng g(a.seed, 22, q);
+        static const double tls[] = {6.0, 3.0, 6.0, 3.0, 1.8};
+        Case c = gen_graded(g, 3 + q % 4, (q & 1) != 0, (q % 4 == 3) ? 1 : (q % 16 == 6) ? 2 : 0, tls[g.range(0, 4)], 12); c.cls += "/loose";
+        { std::ofstream lc(a.out + "/lastcase.txt"); lc << case_json(c, c.n); }
+        if (q < 60) corr_case(c, out);
+        oracle(c, c.n, out);
+        out.count("class_" + c.cls + "/oracle");
+    }
+    // ---- near-convergence stress on the graded family with the Jacobi preconditioner, k = 4..6: the run is continued until the
+    //      residuals sit at the attainable accuracy (tol_div_n in {1e-12, 1e-13}), or stopped at the default tol_div_n = 1e-7.
+    //      There the directions D are rounding noise, D'BD and the Gram matrix of [X R D] degenerate.  Oracle on every case; the
+    //      correspondence replays the whole run (one cut at maxit = n) for the first two cases and for up to three more whose run
+    //      ends in the Gram-matrix exit or with a failed B-orthonormality guard.
+    {
+        int ntight = a.thorough() ? 160 : 24, ndef = a.thorough() ? 1200 : 12, ncorr = 0;
+        for (int q = 0; q < ntight + ndef; q++) {
+            Rng g(a.seed, 23, q); bool tight = q < ntight;
+            double tdn = tight ? ((q & 2) ? 1e-12 : 1e-13) : 1e-7;
+            Case c = gen_graded(g, tight ? 4 + q % 3 : 5 + q % 2, (q & 1) != 0, 1, 1.0, 0); c.tol = tdn; c.cls += tight ? "/stress-tight" : "/stress-default";
+            { std::ofstream lc(a.out + "/lastcase.txt"); lc << case_json(c, c.n); }
+            oracle(c, c.n, out);
+            out.count("class_" + c.cls + "/oracle");
+            if (!tight) continue;
+            std::unique_ptr<Solver> sh(make(c)); Trace tr; shadow_compute(*sh, c.n, c.tol, tr);
+            bool special = tr.guard == 0 || (!tr.it.empty() && tr.it.back().rr == 4);
+            if (q < 2 || (special && ncorr < 3)) { if (q >= 2) ncorr++; c.cuts = {c.n}; corr_case(c, out); }
+        }
+    }
     // ---- sort_epairs on the real class (std::map keyed by the eigenvalue: equal keys collapse) vs the model's sortEpairs
     {
         Mat Ad = Mat::Identity(3, 3); Mat Xd = Mat::Ones(3, 1); Sp As = Ad.sparseView(), Xs = Xd.sparseView(); Solver s(As, Xs);
@@ -417,6 +519,17 @@ int main(int argc, char** argv) {
         c.A = Mat::Zero(c.n, c.n); for (int i = 0; i < c.n; i++) c.A(i, i) = 1.0 + i;
         c.B = Mat::Identity(c.n, c.n); c.T = Mat::Identity(c.n, c.n); c.X0 = Mat::Zero(c.n, c.k); c.X0(0, 0) = 1.0; c.X0(1, 1) = 1.0;
         corr_case(c, out); oracle(c, c.n, out);
+    }
+    {   // the B-orthonormality guard in front of m_info = Success must FAIL (correspondence only: B is indefinite, outside the property):
+        // B = diag(1, ..., 1, -1, ..., -1) makes a pivot of the LDLT of X'BX negative, its complex square root is imaginary and
+        // `.real()` of the scaled factor zeroes a column of X; with a huge tolerance every residual column passes in iteration 0
+        Rng g(a.seed, 24, 0);
+        Case c; c.n = 12; c.k = 2; c.cls = "guard-fails-indefinite-B"; c.tol = 1e6; c.J = 2; c.withB = true;
+        c.A = Mat::Zero(c.n, c.n); for (int i = 0; i < c.n; i++) { c.A(i, i) = 1.0 + i; if (i + 1 < c.n) c.A(i, i + 1) = c.A(i + 1, i) = 0.3 * g.sym(); }
+        c.B = Mat::Identity(c.n, c.n); for (int i = 2; i < c.n; i++) c.B(i, i) = -1.0;
+        c.T = Mat::Identity(c.n, c.n); c.X0 = Mat(c.n, c.k); for (int j = 0; j < c.k; j++) for (int i = 0; i < c.n; i++) c.X0(i, j) = g.sym();
+        c.X0(0, 0) = 4.0; c.X0(1, 1) = 0.01;   // x0'Bx0 > 0; the second pivot is negative
+        corr_case(c, out);
     }
     for (int q = 0; q < (a.thorough() ? 12 : 4); q++) {
         // tolerance placed between the two largest initial residual norms: exactly one unconverged column in iteration 0
